@@ -303,12 +303,20 @@ static long eval_const_expr(Token **rest, Token *tok) {
 
   // [https://www.sigbus.info/n1570#6.10.1p4] In #if, all signed and
   // unsigned integer types act as if they were intmax_t and uintmax_t.
-  for (Token *t = expr; t->kind != TK_EOF; t = t->next)
-    if (t->kind == TK_NUM && is_integer(t->ty) && t->ty->size < 8)
-      t->ty = t->ty->is_unsigned ? ty_ulong : ty_long;
+  // A constant that fits in intmax_t is unsigned only if it has a
+  // `u` suffix, even if it would not fit in an int.
+  for (Token *t = expr; t->kind != TK_EOF; t = t->next) {
+    if (t->kind != TK_NUM || !is_integer(t->ty) || t->ty->size == 8)
+      continue;
+    bool has_u = isdigit(t->loc[0]) &&
+                 (memchr(t->loc, 'u', t->len) || memchr(t->loc, 'U', t->len));
+    t->ty = has_u ? ty_ulong : ty_long;
+  }
 
   Token *rest2;
+  in_pp_const_expr = true;
   long val = const_expr(&rest2, expr);
+  in_pp_const_expr = false;
   if (rest2->kind != TK_EOF)
     error_tok(rest2, "extra token");
   return val;
